@@ -344,6 +344,8 @@ fn gen_c06(rng: &mut Rng, tier: &str, emit: Emit) {
                 let v = gen_vec_len(rng, ty, len);
                 let ks: Vec<usize> = if len <= 24 || tier == "thorough" { (0..=len).collect() } else {
                     let mut k = vec![0, 1, len, len - 1, len / 2, ty.w.min(len), (ty.w + 1).min(len), (ty.w - 1).min(len)];
+                    for m in 1..=(len / ty.w) { k.push(m * ty.w); }
+                    for m in 1..=(len / 64) { k.push(m * 64); }
                     for _ in 0..4 { k.push(rng.below(len + 1)); }
                     k
                 };
@@ -351,6 +353,26 @@ fn gen_c06(rng: &mut Rng, tier: &str, emit: Emit) {
                     emit(line(if rng.chance(1, 2) { "rotl" } else { "rotr" }, &[&v, &s(k)]));
                 }
             }
+        }
+    }
+}
+
+fn gen_c06_aligned(rng: &mut Rng, emit: Emit) {
+    for ty in TYPES {
+        let lim = ty.cap().unwrap_or(320).min(320);
+        let mut len = ty.w;
+        while len <= lim {
+            for _ in 0..3 {
+                let bits = gen_bits(rng, len);
+                let v = vec_token(ty, &bits, 1 + rng.below(2), rng.chance(1, 2));
+                let mut k = 0;
+                while k <= len {
+                    emit(line("rotl", &[&v, &s(k)]));
+                    emit(line("rotr", &[&v, &s(k)]));
+                    k += ty.w.min(64);
+                }
+            }
+            len += ty.w.min(64);
         }
     }
 }
@@ -955,7 +977,7 @@ pub fn generate(fam: &str, seed: u64, tier: &str, emit: Emit) {
         "C09" => gen_c09(rng, tier, emit),
         "C03" => gen_c03(rng, tier, emit),
         "C05" => gen_c05(rng, tier, emit),
-        "C06" => gen_c06(rng, tier, emit),
+        "C06" => { gen_c06(rng, tier, emit); gen_c06_aligned(rng, emit); }
         "C07" => gen_c07(rng, tier, emit),
         "C08" => gen_c08(rng, tier, emit),
         "C10" => gen_c10(rng, tier, emit),
